@@ -373,6 +373,17 @@ func (c *Ctx) condsAt(fd *ast.FuncDecl, target ast.Node) []condLit {
 		}
 	}
 	walkList(fd.Body.List)
+	// short circuit: inside the right operand of a && b, a holds; inside the right operand of a || b, a is false
+	ast.Inspect(fd.Body, func(n ast.Node) bool {
+		be, ok := n.(*ast.BinaryExpr)
+		if !ok || be.Op != token.LAND && be.Op != token.LOR {
+			return true
+		}
+		if be.Y.Pos() <= target.Pos() && target.End() <= be.Y.End() {
+			result = append(result, condLit{e: be.X, neg: be.Op == token.LOR})
+		}
+		return true
+	})
 	return result
 }
 
